@@ -23,6 +23,7 @@ type Batch struct {
 	Tier    string
 	NoCold  bool
 	ForceOp bool // operation-granular scheduling for every run (retry after a stuck simulation)
+	Procs   int  // GOMAXPROCS of the worker (0: 1)
 }
 
 // BatchResult is what a worker process reported.
@@ -88,6 +89,9 @@ func runWorkerWith(b *Build, race bool, args []string, raceLogPrefix string, tim
 	cmd := exec.CommandContext(ctx, bin, b.withHot(args)...)
 	env := append(os.Environ(), "GOMAXPROCS="+procs)
 	for i := 0; i+1 < len(args); i++ {
+		if args[i] == "-procs" && os.Getenv("SIM_GOMAXPROCS") == "" {
+			env = append(env, "GOMAXPROCS="+args[i+1])
+		}
 		if args[i] == "-clockoffset" {
 			// package initialisers of the tree read the clock before main parses flags
 			env = append(env, "SIM_CLOCK_OFFSET="+args[i+1])
@@ -176,6 +180,9 @@ func batchArgs(bt Batch) []string {
 	}
 	if bt.Tier == "thorough" {
 		a = append(a, "-watchdog", "180")
+	}
+	if bt.Procs > 1 {
+		a = append(a, "-procs", fmt.Sprint(bt.Procs))
 	}
 	return a
 }
